@@ -591,6 +591,173 @@ namespace GBS
 PINNED_DIR = os.path.join(os.path.dirname(os.path.abspath(__file__)), "extracted_pinned")
 
 
+
+# ----------------------------------------------------------------------------------------------
+# choose_compatible_weight: from the weights of the compatible descriptors to the vector handed to rng.choice
+
+def _np_call(e, names):
+    """np.<name>(...) / numpy.<name>(...) -> (name, args)"""
+    if isinstance(e, ast.Call) and isinstance(e.func, ast.Attribute) and isinstance(e.func.value, ast.Name) and e.func.value.id in ("np", "numpy") \
+            and e.func.attr in names:
+        return e.func.attr, e.args
+    return None
+
+
+def _num_const(e):
+    if isinstance(e, ast.Constant) and isinstance(e.value, (int, float)) and not isinstance(e.value, bool):
+        fr = Fraction(str(e.value))
+        return f"({fr.numerator} : Rat)" if fr.denominator == 1 else f"(({fr.numerator} : Rat) / {fr.denominator})"
+    raise Unsupported("numeric constant expected: " + ast.dump(e)[:80])
+
+
+def _choose_cond(e, w, idx, cur):
+    """condition of the `if` in front of `weights += c`, over the current weight vector `cur`"""
+    if isinstance(e, ast.BoolOp):
+        op = " && " if isinstance(e.op, ast.And) else " || "
+        return "(" + op.join(_choose_cond(v, w, idx, cur) for v in e.values) + ")"
+    if isinstance(e, ast.UnaryOp) and isinstance(e.op, ast.Not):
+        return "(!" + _choose_cond(e.operand, w, idx, cur) + ")"
+    if isinstance(e, ast.Compare) and len(e.ops) == 1:
+        l, r, o = e.left, e.comparators[0], e.ops[0]
+        # len(compatible_idx) > 0, len(weights) != 0, ...
+        if isinstance(l, ast.Call) and isinstance(l.func, ast.Name) and l.func.id == "len" and isinstance(l.args[0], ast.Name) and l.args[0].id in (w, idx) \
+                and isinstance(r, ast.Constant) and isinstance(r.value, int):
+            rel = {ast.Gt: ">", ast.GtE: "≥", ast.Eq: "==", ast.NotEq: "!=", ast.Lt: "<", ast.LtE: "≤"}.get(type(o))
+            if rel is None:
+                raise Unsupported("comparison of len")
+            if rel in ("==", "!="):
+                return f"({cur}.length {rel} {r.value})"
+            return f"decide ({cur}.length {rel} {r.value})"
+    call = _np_call(e, ("all", "any"))
+    if call:
+        name, args = call
+        c = args[0]
+        if isinstance(c, ast.Compare) and len(c.ops) == 1 and isinstance(c.ops[0], (ast.Eq, ast.NotEq)) and isinstance(c.left, ast.Name) and c.left.id == w:
+            rhs = c.comparators[0]
+            if isinstance(rhs, ast.Subscript) and isinstance(rhs.value, ast.Name) and rhs.value.id == w and isinstance(rhs.slice, ast.Constant) and rhs.slice.value == 0:
+                val = f"{cur}.headD 0"
+            else:
+                val = _num_const(rhs)
+            rel = "==" if isinstance(c.ops[0], ast.Eq) else "!="
+            return f"({cur}.{name} (fun x => x {rel} {val}))"
+    raise Unsupported("condition in choose_compatible_weight: " + ast.dump(e)[:120])
+
+
+def extract_choose(mod):
+    fn = _find_func(mod.body, "choose_compatible_weight")
+    params = [a.arg for a in fn.args.args]
+    if len(params) != 3:
+        raise Unsupported("choose_compatible_weight: three parameters expected")
+    bds, bond, rng = params
+    body = [st for st in fn.body if not (isinstance(st, ast.Expr) and isinstance(st.value, ast.Constant))]
+    w = idx = None
+    steps = []          # Lean lines
+    cur = "ws"
+    k = 0
+    normalised = False
+    chosen = False
+    filled = False
+
+    def is_sum_of_w(e):
+        c = _np_call(e, ("sum",))
+        if c and isinstance(c[1][0], ast.Name) and c[1][0].id == w:
+            return True
+        return isinstance(e, ast.Call) and isinstance(e.func, ast.Attribute) and e.func.attr == "sum" and isinstance(e.func.value, ast.Name) and e.func.value.id == w
+
+    def check_choice(e):
+        if not (isinstance(e, ast.Call) and isinstance(e.func, ast.Attribute) and e.func.attr == "choice" and isinstance(e.func.value, ast.Name) and e.func.value.id == rng):
+            raise Unsupported("rng.choice expected")
+        if not (len(e.args) == 1 and isinstance(e.args[0], ast.Name) and e.args[0].id == idx):
+            raise Unsupported("rng.choice over the compatible indices expected")
+        kw = {x.arg: x.value for x in e.keywords}
+        if set(kw) != {"p"} or not (isinstance(kw["p"], ast.Name) and kw["p"].id == w):
+            raise Unsupported("rng.choice(p=weights) expected")
+
+    for st in body:
+        if isinstance(st, ast.Assign) and len(st.targets) == 1 and isinstance(st.targets[0], ast.Name):
+            tgt, val = st.targets[0].id, st.value
+            if isinstance(val, ast.List) and not val.elts and w is None:
+                w = tgt
+                continue
+            if isinstance(val, ast.Call) and isinstance(val.func, ast.Name) and val.func.id == "get_compatible_bond_descriptor_ids":
+                if [getattr(a, "id", None) for a in val.args] != [bds, bond]:
+                    raise Unsupported("get_compatible_bond_descriptor_ids(bond_descriptors, bond) expected")
+                idx = tgt
+                continue
+            if isinstance(val, ast.ListComp) and idx is not None:
+                # weights = [bond_descriptors[i].weight for i in compatible_idx]
+                g = val.generators[0]
+                if len(val.generators) == 1 and not g.ifs and isinstance(g.iter, ast.Name) and g.iter.id == idx and isinstance(g.target, ast.Name) \
+                        and isinstance(val.elt, ast.Attribute) and val.elt.attr == "weight" and isinstance(val.elt.value, ast.Subscript) \
+                        and getattr(val.elt.value.value, "id", None) == bds and getattr(val.elt.value.slice, "id", None) == g.target.id:
+                    w = tgt
+                    filled = True
+                    continue
+                raise Unsupported("list comprehension of weights")
+            c = _np_call(val, ("asarray", "array"))
+            if c and tgt == w and isinstance(c[1][0], ast.Name) and c[1][0].id == w:
+                continue
+            if tgt == w and isinstance(val, ast.BinOp) and isinstance(val.left, ast.Name) and val.left.id == w:
+                if isinstance(val.op, ast.Div) and is_sum_of_w(val.right) and not normalised:
+                    normalised = True
+                    continue
+                raise Unsupported("assignment to weights")
+            if chosen is False and isinstance(val, ast.Call):
+                check_choice(val)
+                chosen = tgt
+                continue
+            raise Unsupported("statement in choose_compatible_weight: " + ast.dump(st)[:100])
+        if isinstance(st, ast.For) and idx is not None and isinstance(st.iter, ast.Name) and st.iter.id == idx and isinstance(st.target, ast.Name):
+            b = st.body
+            ok = len(b) == 1 and isinstance(b[0], ast.Expr) and isinstance(b[0].value, ast.Call) and isinstance(b[0].value.func, ast.Attribute) \
+                and b[0].value.func.attr == "append" and getattr(b[0].value.func.value, "id", None) == w
+            if ok:
+                a = b[0].value.args[0]
+                ok = isinstance(a, ast.Attribute) and a.attr == "weight" and isinstance(a.value, ast.Subscript) and getattr(a.value.value, "id", None) == bds \
+                    and getattr(a.value.slice, "id", None) == st.target.id
+            if not ok or st.orelse:
+                raise Unsupported("loop filling the weights")
+            filled = True
+            continue
+        if isinstance(st, ast.If) and not st.orelse and len(st.body) == 1 and not normalised and filled:
+            inner = st.body[0]
+            if isinstance(inner, ast.AugAssign) and isinstance(inner.op, ast.Add) and getattr(inner.target, "id", None) == w:
+                c = _num_const(inner.value)
+            elif isinstance(inner, ast.Assign) and getattr(inner.targets[0], "id", None) == w and isinstance(inner.value, ast.BinOp) and isinstance(inner.value.op, ast.Add) \
+                    and getattr(inner.value.left, "id", None) == w:
+                c = _num_const(inner.value.right)
+            else:
+                raise Unsupported("body of the if in choose_compatible_weight")
+            k += 1
+            steps.append(f"  let ws{k} := if {_choose_cond(st.test, w, idx, cur)} then {cur}.map (· + {c}) else {cur}")
+            cur = f"ws{k}"
+            continue
+        if isinstance(st, ast.AugAssign) and isinstance(st.op, ast.Div) and getattr(st.target, "id", None) == w and is_sum_of_w(st.value) and not normalised and filled:
+            normalised = True
+            continue
+        if isinstance(st, ast.Try):
+            if len(st.body) != 1 or not isinstance(st.body[0], ast.Assign):
+                raise Unsupported("try body")
+            check_choice(st.body[0].value)
+            chosen = st.body[0].targets[0].id
+            for h in st.handlers:
+                if not any(isinstance(x, ast.Raise) for x in h.body):
+                    raise Unsupported("handler that swallows the error of rng.choice")
+            continue
+        if isinstance(st, ast.Return):
+            if not (chosen and isinstance(st.value, ast.Name) and st.value.id == chosen):
+                raise Unsupported("return of the chosen index expected")
+            continue
+        raise Unsupported("statement in choose_compatible_weight: " + ast.dump(st)[:100])
+    if not (filled and normalised and chosen and w and idx):
+        raise Unsupported("choose_compatible_weight: weights / normalisation / choice not all found")
+    out = ["/-- `weights` of `choose_compatible_weight` at the call of `rng.choice`, as a function of the weights of the compatible descriptors",
+           "(in the order of `get_compatible_bond_descriptor_ids`); the choice is made over exactly those indices with `p = weights`. -/",
+           "def chooseSumX (l : List Rat) : Rat := l.foldr (· + ·) 0",
+           "def chooseWeightsX (ws : List Rat) : List Rat :="] + steps + [f"  {cur}.map (· / chooseSumX {cur})"]
+    return "\n".join(out) + "\n"
+
+
 def _part_bond():
     bond = _parse("bond.py")
     return extract_is_compatible(bond) + "\n" + extract_order_chain(bond) + "\n" + extract_compat_text(bond)
@@ -603,6 +770,7 @@ PARTS = [
     ("Masses", "masses", extract_atomic_masses),
     ("FFCache", "ffcache", lambda: extract_ff_cache(_parse("forcefield_helper.py"))),
     ("FFTables", "fftables", extract_ff_tables),
+    ("Choose", "choose", lambda: extract_choose(_parse("core.py"))),
 ]
 
 
